@@ -23,6 +23,8 @@ ENGINES = [
      "kind_free_text": "TLA+ model of configuration channel precedence; channel combinations replayed on real Systems"},
     {"name": "solvercache", "path": "spec/SolverCache.tla spec/Scen_Solver.tla spec/Trace_SolverCache.tla vh/solverdrv.py", "serves_properties": ["C16"],
      "kind_free_text": "TLA+ model of the sparse-solver wrappers' caching protocol; call sequences replayed on the real wrappers"},
+    {"name": "discrete", "path": "spec/Discrete.tla spec/Scen_Discrete.tla vh/discdrv.py", "serves_properties": ["C09"],
+     "kind_free_text": "definitions of discrete components in TLA+; lattices and histories enumerated by TLC with prescribed outputs"},
     {"name": "connectivity", "path": "spec/Connectivity.tla spec/Trace_Connectivity.tla spec/Scen_Connectivity.tla vh/conndrv.py vh/netbuild.py",
      "serves_properties": ["C12"], "kind_free_text": "graph definitions in TLA+ evaluated by TLC on logged graphs of real Systems; ConnMan model-checked"},
     {"name": "lifecycle", "path": "spec/Lifecycle.tla spec/Trace_Lifecycle.tla spec/Scen_Lifecycle.tla vh/lifecycle.py vh/infeasible.py",
@@ -152,6 +154,19 @@ CHECKS["C16"] = dict(
     note=TRUSTED.replace("vh/tdsdrv.py: ranks of floats, booleans computed on floats", "vh/solverdrv.py: result classes by comparison with exact solutions")
          + "'Solver precision' is read as the routine tolerance. numba JIT is not exercised. Known finding: EIG does not run with "
            "the SciPy back-end.")
+
+CHECKS["C09"] = dict(
+    engine="discrete", design_ref="DESIGN.md 4 (C09)",
+    technique="documented semantics as TLA+ definitions with lattice-wide ASSUMEs; TLC enumerates complete input lattices and "
+              "time-stamp histories with prescribed outputs, replayed on the real classes; TLC trace validation of limiters in runs",
+    text="Discrete.tla defines what each component must return (limiter flags with sign / inclusive / one-sided variants, "
+         "anti-windup clamping, comparators, switch, selector, step delay, trapezoidal average, backward difference with repeated "
+         "and rewound time stamps, sample-and-hold) and TLC checks one-hot and in-range clauses over the whole lattice; every "
+         "enumerated input / history (exhaustive within the bounds) is replayed on stand-alone instances of the real classes; in "
+         "simulations with active limiters every stored instant is validated by TLC (inside limits, zero derivative when pegged).",
+    note=TRUSTED.replace("vh/tdsdrv.py: ranks of floats, booleans computed on floats", "vh/discdrv.py stand-alone instantiation as in tests/test_discrete.py; vh/tdsdrv.observe_limits")
+         + "SortedLimiter, RateLimiter, AntiWindupRate, ShuntAdjust, time-mode Delay only through simulations. Known finding: "
+           "DeadBandRT return flags.")
 
 NOT_APPLICABLE = [
     {"property_id": "C07", "reason": "numeric accuracy / convergence order against closed-form and matrix-exponential references: no "
